@@ -95,3 +95,42 @@ func StopLoop(r *rig.Rng) *Program {
 	h.B(rom[:0x4000])
 	return &Program{ROM: rom, Hash: h.Sum(), CartType: 0, Items: 30, Seed: "stop-loop"}
 }
+
+// Battery builds a program for a battery-backed cartridge type whose visible behaviour depends
+// on what cartridge RAM (and, for the clock types, the clock registers) holds at power-on: it
+// enables RAM, reads bytes before ever writing them, sends them over the serial port, folds them
+// into registers, increments them in place and loops.
+func Battery(r *rig.Rng, cart uint8) *Program {
+	ram := uint8(3)
+	if cart == 0x06 || cart == 0x0f {
+		ram = 0
+	}
+	rom := rig.BlankROM(cart, 1, ram)
+	pc := 0x150
+	emit := func(b ...byte) { copy(rom[pc:], b); pc += len(b) }
+	rig.Put(rom, 0x100, 0x00, 0xc3, 0x50, 0x01)
+	emit(0x31, 0xf0, 0xdf)
+	emit(0x3e, 0x0a, 0xea, 0x00, 0x00) // enable RAM
+	loop := pc
+	for k := 0; k < 24; k++ {
+		a := 0xa000 + uint16(r.Intn(0x200))
+		if r.Chance(1, 4) {
+			emit(0x3e, uint8(r.Intn(4)), 0xea, 0x00, 0x40) // RAM bank
+		}
+		if (cart == 0x0f || cart == 0x10) && r.Chance(1, 4) {
+			emit(0x3e, uint8(0x08+r.Intn(5)), 0xea, 0x00, 0x40)              // a clock register
+			emit(0x3e, 0x00, 0xea, 0x00, 0x60, 0x3e, 0x01, 0xea, 0x00, 0x60) // latch
+		}
+		emit(0x21, uint8(a), uint8(a>>8)) // LD HL,a
+		emit(0x7e, 0xe0, 0x01)            // LD A,(HL); LDH (01),A
+		emit(0x80, 0x47)                  // ADD A,B; LD B,A
+		emit(0x34)                        // INC (HL)
+		if r.Chance(1, 3) {
+			emit(0x36, r.U8()) // LD (HL),n
+		}
+	}
+	emit(0xc3, uint8(loop), uint8(loop>>8))
+	h := rig.NewHasher()
+	h.B(rom[:0x4000])
+	return &Program{ROM: rom, Hash: h.Sum(), CartType: cart, Items: 24, Seed: "battery"}
+}
